@@ -7,6 +7,7 @@ import EinoV.Model.C15
 import EinoV.Proofs.C15Trie
 import EinoV.Proofs.C15
 import EinoV.Proofs.C15Keys
+import EinoV.Proofs.C15Static
 import EinoV.Gen.FactsC15
 import EinoV.Expected.C15
 
@@ -174,6 +175,101 @@ theorem runtime_check_no_panic (allowMissing : Bool) (st : FTy) (es : List Edge)
     | none => simp [hc] at this
     | some v => simp
 
+/-! ## pre-node handler chain, static values -/
+
+/-- the structural facts of `preNodeHandlerManager.handle` as extracted from the source -/
+def srcPreNode : ChainFacts :=
+  { valueAppliesAll := FactsC15.preNodeValueAppliesAll
+    streamAppliesAll := FactsC15.preNodeStreamAppliesAll }
+
+/-- … of `preBranchHandlerManager.handle` and `edgeHandlerManager.handle` (the same loop shape:
+    the field-mapping edge handlers `[fieldMap, checker]` go through the latter) -/
+def srcPreBranch : ChainFacts :=
+  { valueAppliesAll := FactsC15.preBranchValueAppliesAll
+    streamAppliesAll := FactsC15.preBranchStreamAppliesAll }
+def srcEdge : ChainFacts :=
+  { valueAppliesAll := FactsC15.edgeValueAppliesAll
+    streamAppliesAll := FactsC15.edgeStreamAppliesAll }
+
+/-- Source fact tie for the handler managers: both twins of all three `handle` functions iterate
+    over the whole handler list. -/
+theorem chain_facts_match :
+    srcPreNode = Expected.C15.chain ∧ srcPreBranch = Expected.C15.chain ∧ srcEdge = Expected.C15.chain := by
+  decide
+
+/-- **chain_twins_agree.** For every list of handlers (no bound on its length), every
+    concatenation function and every chunk list: if each handler commutes with concatenation,
+    the stream twin of `preNodeHandlerManager.handle` followed by concatenation gives what the
+    value twin gives on the concatenated chunks — streaming and non-streaming execution hand the
+    node the same input (an error in one is the same error in the other). -/
+theorem chain_twins_agree {V E : Type} (concat : List V → V) (hs : List (HandlerPair V E))
+    (hc : ∀ h ∈ hs, Commutes concat h) (cs : List V) :
+    (chainStream srcPreNode.streamAppliesAll hs cs).map concat =
+      chainValue srcPreNode.valueAppliesAll hs (concat cs) := by
+  rw [chain_facts_match.1]
+  exact chain_agree_along concat hs cs (commutesAlong_of_commutes concat hs hc cs)
+
+/-- … the same for the handler lists on edges and in front of branches -/
+theorem chain_twins_agree_edge_branch {V E : Type} (concat : List V → V) (hs : List (HandlerPair V E))
+    (hc : ∀ h ∈ hs, Commutes concat h) (cs : List V) :
+    (chainStream srcEdge.streamAppliesAll hs cs).map concat = chainValue srcEdge.valueAppliesAll hs (concat cs) ∧
+    (chainStream srcPreBranch.streamAppliesAll hs cs).map concat = chainValue srcPreBranch.valueAppliesAll hs (concat cs) := by
+  rw [chain_facts_match.2.1, chain_facts_match.2.2]
+  exact ⟨chain_agree_along concat hs cs (commutesAlong_of_commutes concat hs hc cs),
+         chain_agree_along concat hs cs (commutesAlong_of_commutes concat hs hc cs)⟩
+
+/-- **chain_twins_agree (along the run).** It is enough that the handlers commute with
+    concatenation on the chunk lists that occur along this run of the chain (the form the oracle
+    evaluates on every generated case). -/
+theorem chain_twins_agree_along {V E : Type} (concat : List V → V) (hs : List (HandlerPair V E))
+    (cs : List V) (hc : CommutesAlong concat hs cs) :
+    (chainStream srcPreNode.streamAppliesAll hs cs).map concat =
+      chainValue srcPreNode.valueAppliesAll hs (concat cs) := by
+  rw [chain_facts_match.1]; exact chain_agree_along concat hs cs hc
+
+/-- The static-value handler commutes with concatenation: on `map[string]any` chunks whose keys
+    (joined target paths) differ from the static ones (what `mergeMap` requires; the static keys
+    are the keys of a Go map, hence distinct), merging the one-chunk static stream into the
+    stream and concatenating equals `mergeValues` on the concatenated chunks. -/
+theorem static_handler_commutes (st : List (Path × Taken)) (ls : List (List (Path × Taken)))
+    (l : List (Path × Taken)) (hl : concatIn (ls.map NodeIn.entries) = .entries l)
+    (hd : dupKey l st = false) (hnd : st.Pairwise (fun a b => a.1 ≠ b.1)) :
+    ((staticHandler st).transform (ls.map NodeIn.entries)).map concatIn =
+      (staticHandler st).invoke (concatIn (ls.map NodeIn.entries)) := by
+  simp only [staticHandler, all_isEntries_map, if_true, Except.map, concatIn_append_one, hl, hd,
+    NodeIn.merge]
+  rw [mergeEntries_fresh st l (keyFree_of_dupKey_false l st hd) hnd]
+  simp
+
+/-- **static_assembled_exact.** A node with field mappings and static values: when the mapped
+    target paths and the static paths are pairwise prefix-unrelated (what compilation accepts,
+    `overlap_rejected_iff` with the static paths as one more group) and every entry is assignable,
+    the pre-node chain `[merge static values, convertTo]` yields a node input `v` that is the same
+    for every iteration order of the merged map, reads back exactly the mapped values at the
+    mapped paths and the static values at the static paths, and is zero everywhere else:
+    "mapped fields ∪ static fields". -/
+theorem static_assembled_exact (T : FTy) (lm ls : List (Path × Taken))
+    (hno : noOverlap ((lm ++ ls).map (·.1)))
+    (hok : ∀ x ∈ lm ++ ls, (assign T (newInstance T) x.1 x.2).isSome) :
+    ∃ v, assembleStatic srcPreNode T ls lm = .ok (.val v) ∧
+      (∀ l', l'.Perm (lm ++ ls) → convertTo T l' = some v) ∧
+      (∀ x ∈ lm ++ ls, ∃ st w, slotTy T x.1 = some st ∧ store st x.2 = some w ∧ getT T v x.1 = some (st, w)) ∧
+      (∀ q, (∀ x ∈ lm ++ ls, ¬ prefixRel x.1 q) → getT T v q = getT T (newInstance T) q) := by
+  obtain ⟨v, hperm, hA, hB⟩ := mapped_exact T (lm ++ ls) hno hok
+  refine ⟨v, ?_, hperm, hA, hB⟩
+  rw [chain_facts_match.1]
+  unfold assembleStatic nodeHandlers
+  cases hls : ls with
+  | nil =>
+    subst hls
+    have := hperm lm (by simp)
+    simp [chainValue, converterHandler, convertIn, this, Expected.C15.chain]
+  | cons s rest =>
+    have hd := dupKey_false_of_noOverlap lm ls hno
+    have := hperm (lm ++ ls) (List.Perm.refl _)
+    rw [hls] at hd this
+    simp [chainValue, staticHandler, converterHandler, convertIn, hd, this, Expected.C15.chain]
+
 /-! ## non-vacuity -/
 
 /-- a small universe: `struct Leaf{S string; N int}`, `struct Top{S string; L Leaf; PL *Leaf; MPL map[string]*Leaf; A any}` -/
@@ -265,5 +361,38 @@ theorem checker_uses_last_mapping_as_found :
     let ms : List Mapping := [⟨["A"], ["S"]⟩, ⟨["A"], ["A"]⟩]
     checkE Expected.C15.validateAsFound exTop exTop ms [(⟨["A"], ["S"]⟩, some (.int, .int 3))] = true ∧
     checkE Expected.C15.validate exTop exTop ms [(⟨["A"], ["S"]⟩, some (.int, .int 3))] = false := by decide
+
+/-! ## static values: non-vacuity and the negation for a stream twin that returns early -/
+
+/-- `Req{Query; Cfg{Mode; Level}; Meta map[string]any}`: `Query` and `Cfg.Level` mapped,
+    `Cfg.Mode` and `Meta.a.b` static (the latter creates the intermediate map) -/
+def exCfg : FTy := .struct "Cfg" (.cons "Mode" .str (.cons "Level" .int .nil))
+def exReq : FTy := .struct "Req" (.cons "Query" .str (.cons "Cfg" exCfg (.cons "Meta" (.map .any) .nil)))
+def exMapped : List (Path × Taken) := [(["Query"], some (.str, .str "hello")), (["Cfg", "Level"], some (.int, .int 3))]
+def exStatic : List (Path × Taken) := [(["Cfg", "Mode"], some (.str, .str "fast")), (["Meta", "a", "b"], some (.int, .int 7))]
+def exAssembled : FVal :=
+  .obj (.cons "Query" (.str "hello") (.cons "Cfg" (.obj (.cons "Mode" (.str "fast") (.cons "Level" (.int 3) .nil)))
+    (.cons "Meta" (.map (.cons "a" (.box (.map .any) (.map (.cons "b" (.box .int (.int 7)) .nil))) .nil)) .nil)))
+
+/-- the hypotheses of `static_assembled_exact` are satisfiable, and this is the value -/
+example : noOverlap ((exMapped ++ exStatic).map (·.1)) := by decide
+example : ∀ x ∈ exMapped ++ exStatic, (assign exReq (newInstance exReq) x.1 x.2).isSome := by decide
+example : assembleStatic Expected.C15.chain exReq exStatic exMapped = .ok (.val exAssembled) := by decide
+
+/-- streaming execution of the same node (the mapped entries arrive in two chunks, the static
+    values in a third): the chunks concatenate to the non-streaming input -/
+example :
+    (assembleStaticStream Expected.C15.chain exReq exStatic
+      [.entries [(["Query"], some (.str, .str "hello"))], .entries [(["Cfg", "Level"], some (.int, .int 3))]]).map concatIn
+      = .ok (.val exAssembled) := by decide
+
+/-- If the stream twin left the loop after the first handler (`return v.transform(…)`), the node
+    would be handed the un-converted `map[string]any` chunks in streaming execution while
+    non-streaming execution still hands it the typed input: the twins disagree. -/
+theorem chain_twins_disagree_if_stream_returns_early :
+    (assembleStaticStream Expected.C15.chainStreamReturnsEarly exReq exStatic [.entries exMapped]).map concatIn
+      = .ok (.entries (exMapped ++ exStatic)) ∧
+    assembleStatic Expected.C15.chainStreamReturnsEarly exReq exStatic exMapped = .ok (.val exAssembled) := by
+  decide
 
 end EinoV.C15
